@@ -14,7 +14,7 @@ func init() {
 		ID: "C16", Run: runC16, QuickRuns: 10000, ThoroughRuns: 100000,
 		Rule:       "Each run: a history of 1..60 (thorough: up to 1500, enough to wrap the 1 MiB span several times) string/binary decodes with the buffer readers and with the stream reader over a simulated Source, lengths across the span allocator's classes (0, <128B, 128B..128KiB, larger); every decoded value is retained; after each batch tape-chosen disturbances: overwrite the input buffer, Release the stream reader so its buffer is recycled (poisoned / taken by the co-tenant), append to and write through returned byte slices. The same pre-generated history is executed with the span cache disabled and enabled and the result sequences are compared.",
 		Components: realComponents,
-		Probes:     []string{"len_0", "len_lt_128", "len_128_to_128k", "len_gt_128k", "input_overwritten", "reader_released", "append_to_result", "write_through_result", "span_enabled_runs", "repeated_value"},
+		Probes:     []string{"len_0", "len_lt_128", "len_128_to_128k", "len_gt_128k", "input_overwritten", "reader_released", "append_to_result", "write_through_result", "span_enabled_runs", "repeated_value", "nested_decode_from_returned_slice"},
 	})
 }
 
@@ -48,6 +48,10 @@ func runC16(c *sim.Ctx) {
 	var ops []c16Op
 	var script []int // per op: disturbance code
 	sizeMix := cfg.Choose(3)
+	fixedTiny := 0
+	if cfg.Chance(1, 5) {
+		fixedTiny = []int{16, 32, 64}[cfg.Choose(3)]
+	}
 	for i := 0; i < nops; i++ {
 		var n int
 		switch st.Pick(4, 8, 8, 1) {
@@ -56,6 +60,9 @@ func runC16(c *sim.Ctx) {
 			c.Count("probe.len_0")
 		case 1:
 			n = 1 + st.Choose(127)
+			if fixedTiny > 0 {
+				n = fixedTiny // every tiny value has the same power-of-two size: sums land exactly on block sizes
+			}
 			c.Count("probe.len_lt_128")
 		case 2:
 			switch sizeMix {
@@ -93,17 +100,42 @@ func runC16(c *sim.Ctx) {
 	}
 	scfg := sim.RandomSourceCfg(cfg, 0)
 	first := cfg.Choose(2) == 1
-	var results [2][]uint64
-	for pass := 0; pass < 2; pass++ {
+	var results [3][]uint64
+	var held [][]c16Kept
+	// the switch is flipped while values decoded under the previous setting are still held:
+	// on, off, on (or off, on, off); everything ever returned is re-verified at the end
+	for pass := 0; pass < 3; pass++ {
 		span := (pass == 1) != first
 		thrift.SetSpanCache(span)
 		if span {
 			c.Count("probe.span_enabled_runs")
 		}
 		c.Tracef("pass %d: span cache %v, %d decodes", pass, span, len(ops))
-		results[pass] = c16Pass(c, ops, script, scfg, span, pass)
+		var k []c16Kept
+		results[pass], k = c16Pass(c, ops, script, scfg, span, pass)
+		held = append(held, k)
 	}
 	thrift.SetSpanCache(false)
+	for pass, ks := range held {
+		for i := range ks {
+			k := &ks[i]
+			got := k.b
+			if k.isStr {
+				got = []byte(k.s)
+			}
+			if d := firstDiff(got, k.want); d >= 0 {
+				c.Fail("ALIASING", "decode", sim.F{"disturbance": "the span-cache switch was flipped and later decodes ran", "pass": pass}, "the %d-byte value decoded by op %d of pass %d changed at byte %d after the span-cache setting was switched and more values were decoded", len(k.want), k.opIdx, pass, d)
+			}
+		}
+	}
+	if len(results[0]) != len(results[2]) {
+		c.Fail("SPAN_DIVERGENCE", "decode", sim.F{}, "the same history produced a different number of results when repeated")
+	}
+	for i := range results[0] {
+		if results[0][i] != results[2][i] {
+			c.Fail("SPAN_DIVERGENCE", "decode", sim.F{"repeat": true}, "result %d differs between two executions under the same span-cache setting", i)
+		}
+	}
 	a, b := results[0], results[1]
 	if len(a) != len(b) {
 		c.Fail("SPAN_DIVERGENCE", "decode", sim.F{}, "the history produced %d results with one span-cache setting and %d with the other", len(a), len(b))
@@ -128,7 +160,7 @@ func fnv(b []byte, l int, err bool) uint64 {
 	return h
 }
 
-func c16Pass(c *sim.Ctx, ops []c16Op, script []int, scfg sim.SourceCfg, span bool, pass int) (res []uint64) {
+func c16Pass(c *sim.Ctx, ops []c16Op, script []int, scfg sim.SourceCfg, span bool, pass int) (res []uint64, keptOut []c16Kept) {
 	B := thrift.Binary
 	var kept []c16Kept
 	keptBytes := 0
@@ -206,6 +238,25 @@ func c16Pass(c *sim.Ctx, ops []c16Op, script []int, scfg sim.SourceCfg, span boo
 				res = append(res, fnv(b, l, err != nil))
 				if op.binary {
 					lastBin = keep(c16Kept{b: b, want: op.val, opIdx: i + k})
+					if len(op.val) >= 8 && script[i] != 0 {
+						// nested payload: a returned byte slice is itself the input of another
+						// decode (its first bytes are given a length prefix by the caller, who owns
+						// them); the inner value must be a copy of its own
+						innerLen := len(b) - 4
+						if innerLen > 300 {
+							innerLen = 300
+						}
+						b[0], b[1], b[2], b[3] = 0, 0, byte(innerLen>>8), byte(innerLen)
+						kept[lastBin].want = append([]byte(nil), b...)
+						var inner string
+						var ierr error
+						c.GuardNoOOM("ReadString/Binary", func() { inner, _, ierr = B.ReadString(b) })
+						if ierr != nil || inner != string(b[4:4+innerLen]) {
+							c.Fail("VALUE_MISMATCH", "Read/Binary", sim.F{}, "nested decode failed: %v", ierr)
+						}
+						keep(c16Kept{s: inner, isStr: true, want: append([]byte(nil), b[4:4+innerLen]...), opIdx: i + k})
+						c.Count("probe.nested_decode_from_returned_slice")
+					}
 				} else {
 					keep(c16Kept{s: s, isStr: true, want: op.val, opIdx: i + k})
 				}
@@ -309,5 +360,11 @@ func c16Pass(c *sim.Ctx, ops []c16Op, script []int, scfg sim.SourceCfg, span boo
 	verify("the end of the history", -1)
 	co.finish()
 	c.NonTriv = true
-	return res
+	// hand the most recent values (up to 64 KiB) to the caller, which holds them across passes
+	n := 0
+	for i := len(kept) - 1; i >= 0 && n < 64<<10; i-- {
+		n += len(kept[i].want)
+		keptOut = append(keptOut, kept[i])
+	}
+	return res, keptOut
 }
